@@ -83,6 +83,7 @@ def _(got, all_keys, missing):
 @contract("yatiml/util.py::diagnose_extraneous_key")
 def _(name, got, expected_type):
     properties('C17', 'C08')
+    sort('name', 'str')
     sort('got', 'Seq[str]')
     sort('expected_type', 'Ty')
     result_sort('str')
@@ -93,6 +94,7 @@ def _(name, got, expected_type):
 @contract("yatiml/util.py::diagnose_missing_key")
 def _(name, got, expected_type):
     properties('C17', 'C08')
+    sort('name', 'str')
     sort('got', 'Seq[str]')
     sort('expected_type', 'Ty')
     result_sort('str')
